@@ -304,8 +304,10 @@ def check_value_stacks(chk, rep, tier, only_units=False):
             feat["error_through_wrappers"] += 1
         if touched and b["expect"]["kind"] == "metric":
             feat["unit_conversions_in_stacks"] += 1
-        if "None" in ws:
+        if "None" in ws or "FmtNone" in ws:
             feat["empty_option"] += 1
+        if any(w.startswith("Fmt") for w in ws):
+            feat["formatter_lifted_container"] += 1
     chk.extra["value_stacks"] = len(beh)
     chk.extra["value_stack_features"] = dict(feat)
     mid = beh[len(beh) // 2]
@@ -347,7 +349,8 @@ def check_entry_stacks(chk, rep, tier):
         for w in b["stack"]:
             if w["deny"]:
                 feat["deny_list_layers"] += 1
-        for k in ("Boxed", "MergeG", "MergeRef", "MergeStream", "MergeAfter", "GDims", "GDimsStream", "EDims", "EFlag",
+        for k in ("Boxed", "MergeG", "MergeRef", "MergeStream", "MergeFormat", "MergeAfter", "GDims", "GDimsStream", "GDimsFormat",
+                  "EDims", "EFlag",
                   "FlagStream", "Root", "RootDims", "RootFlag", "NoneE"):
             if k in ws:
                 feat["with_" + k] += 1
